@@ -1,5 +1,6 @@
 """Shared driver for table-style obligations: 'this gate list equals that operator
 (exactly / up to a global phase) for all parameter values'."""
+import math
 import random
 
 import numpy as np
@@ -93,9 +94,28 @@ def run_items(run, items, fname, rng, trials=10, tol=1e-8):
             run.find(it.key, f"{n_}: implementation contradicts the expected operator", {**it.meta, **w})
 
 
-def numeric_search(it, rng, trials=10, tol=1e-8):
+SPECIAL = [0.0, math.pi, -math.pi, math.pi / 2, -math.pi / 2, 2 * math.pi, math.pi / 4, 3 * math.pi / 2, 1.0]
+
+
+def candidate_values(it, rng, trials):
+    """special parameter values first (multiples of pi/4 expose wrong special cases), then random ones"""
+    k = it.nparams
+    out = []
+    if k:
+        for j in range(k):
+            for sp in SPECIAL:
+                v = [round(rng.uniform(*it.domain), 3) for _ in range(k)]
+                v[j] = sp
+                out.append(v)
+        for sp in SPECIAL:
+            out.append([sp] * k)
     for _ in range(trials):
-        vals = [round(rng.uniform(*it.domain), 3) for _ in range(it.nparams)]
+        out.append([round(rng.uniform(*it.domain), 3) for _ in range(k)])
+    return out
+
+
+def numeric_search(it, rng, trials=10, tol=1e-8):
+    for vals in candidate_values(it, rng, trials):
         try:
             lhs, rhs, n = it.builder(vals)
             A = qtrace.full_unitary(lhs, n)
